@@ -121,13 +121,16 @@ Section Proofs.
   Variable load : loader.
   (** the keeper's loader hands every account's stored sequence to the StateDB, whatever its type *)
   Hypothesis Hload : loader_faithful load.
+  Variable pre : prefn.
+  (** a contract creation is executed with the nonce of its transaction *)
+  Hypothesis Hpre : pre_create_resets pre.
 
   Notation sender_of := (sender_of chain recover).
   Notation sig_pass := (sig_pass chain recover).
   Notation ante := (ante chain recover).
-  Notation run_msgs := (run_msgs chain recover kinds load).
-  Notation exec_msg := (exec_msg chain recover kinds load).
-  Notation deliver := (deliver chain recover kinds load).
+  Notation run_msgs := (run_msgs chain recover kinds load pre).
+  Notation exec_msg := (exec_msg chain recover kinds load pre).
+  Notation deliver := (deliver chain recover kinds load pre).
   Notation tx_claims := (tx_claims chain recover).
 
   Lemma run_dec_irrelevant d ms c : relevant d = false -> run_dec chain recover d ms c = Some c.
@@ -317,10 +320,10 @@ Section Proofs.
       destruct (N.eqb (m_nonce m) (s0 b)) eqn:En; [|discriminate]. apply N.eqb_eq in En.
       assert (Hr' : exists t1, (forall x, t1 x = upd t b (N.succ (m_nonce m)) x) /\
                     exists us' cs', run_msgs t1 r = Some (t2, us', cs')).
-      { destruct (Model.exec_msg chain recover kinds load t m) as [[[t1 u1] c1]|] eqn:Ee; [|discriminate].
+      { destruct (Model.exec_msg chain recover kinds load pre t m) as [[[t1 u1] c1]|] eqn:Ee; [|discriminate].
         destruct (exec_msg_seq _ _ _ _ _ Ee) as [b' [Hb' Hx]].
         assert (b' = b) by congruence. subst b'.
-        destruct (Model.run_msgs chain recover kinds load t1 r) as [[[x y] z]|] eqn:Er; [|discriminate].
+        destruct (Model.run_msgs chain recover kinds load pre t1 r) as [[[x y] z]|] eqn:Er; [|discriminate].
         inversion Hr; subst. exists t1. split; [exact Hx|eauto]. }
       destruct Hr' as [t1 [Ht1 [us' [cs' Hr']]]].
       destruct (IH _ _ _ _ _ _ Hi Hr' a) as [IH1 IH2].
@@ -343,7 +346,7 @@ Section Proofs.
     - cbn [Model.run_msgs] in H. unfold Model.exec_msg in H.
       destruct (sender_of m) as [b|] eqn:Eb; [|destruct (m_exec m); discriminate].
       destruct (m_exec m) eqn:Ee; try discriminate;
-      (destruct (Model.run_msgs chain recover kinds load _ r) as [[[x y] z]|] eqn:Er; [|discriminate]);
+      (destruct (Model.run_msgs chain recover kinds load pre _ r) as [[[x y] z]|] eqn:Er; [|discriminate]);
       inversion H; subst; destruct (IH _ _ _ _ Er) as [-> IHc]; (split; [reflexivity|]).
       + destruct (m_create m) eqn:Ec.
         * intros u k [Heq|Hin].
@@ -433,11 +436,11 @@ Section Proofs.
   Fixpoint final (s0 : state) (tr : list gstep) : state :=
     match tr with [] => s0 | g :: r => final (snd g) r end.
 
-  Lemma trace_run ds ts : forall s, map (fun g => snd (fst g)) (trace ds s ts) = snd (run chain recover kinds load ds s ts).
+  Lemma trace_run ds ts : forall s, map (fun g => snd (fst g)) (trace ds s ts) = snd (run chain recover kinds load pre ds s ts).
   Proof.
     induction ts as [|t r IH]; intro s; simpl; [reflexivity|].
     destruct (deliver ds s t) as [s1 x] eqn:E. simpl.
-    destruct (run chain recover kinds load ds s1 r) as [s2 xs] eqn:Er. simpl. f_equal.
+    destruct (run chain recover kinds load pre ds s1 r) as [s2 xs] eqn:Er. simpl. f_equal.
     rewrite IH, Er. reflexivity.
   Qed.
 
